@@ -123,6 +123,8 @@ pub fn report(src: &str, path: PathBuf, errs: &[Box<dyn ReportableError + '_>]) 
             .with_message(e.get_message())
             .with_labels(labels)
             .finish();
+        #[cfg(mimium_verif)]
+        crate::verif_hooks::sched_point(crate::verif_hooks::SP_FILE_BUCKET);
         if let Ok(mut cache) = FILE_BUCKET.lock() {
             let mut cache: &mut FileCache = &mut cache;
             cache
